@@ -19,16 +19,17 @@ import (
 	"verif/harness/vt"
 )
 
-// c18assigner exposes the harness methods i (instant), e (error), g (gated).
+// c18assigner exposes the harness methods i (instant), e (error), g (gated),
+// c (returns context.Canceled) and d (returns an *Error with code DeadlineExceeded).
 type c18assigner struct{ h *peer.Handlers }
 
 func (a c18assigner) Assign(ctx context.Context, m string) jrpc2.Handler {
-	if m == "i" || m == "e" || m == "g" {
+	if m == "i" || m == "e" || m == "g" || m == "c" || m == "d" {
 		return a.h.Assign(ctx, m)
 	}
 	return nil
 }
-func (a c18assigner) Names() []string { return []string{"e", "g", "i"} }
+func (a c18assigner) Names() []string { return []string{"c", "d", "e", "g", "i"} }
 
 func c18bridge(h *peer.Handlers) jhttp.Bridge {
 	return jhttp.NewBridge(c18assigner{h}, &jhttp.BridgeOptions{Server: &jrpc2.ServerOptions{Concurrency: 16}})
